@@ -9,3 +9,14 @@ CLAIMS["C07"] = (
     "Trusted: the reference penalty values in mc/ref/pen.py (documented formulas, self-tested one-sided derivatives) and "
     "the brute-force minimiser, which is one-sided (can only under-detect). No claim outside the alphabets.",
     "DESIGN.md §4 C07")
+CLAIMS["C08"] = (
+    "exploration",
+    "bounded exhaustive enumeration of (w, gradient) inputs against the reference regular subdifferential",
+    "Every subdiff_distance (scalar, row, group; positivity on/off; zero weights) is evaluated on the full product of "
+    "hyper-parameters x w in {0, kinks, kinks +-ulp, region interiors, infeasible} x gradients incl. the ends of the reference "
+    "subdifferential +-ulp, with a permuted working set, and compared with the distance to the regular subdifferential of "
+    "the documented value; plus prox-image stationarity, the converse for convex penalties, inf at positivity violations, "
+    "and zero value of unpenalised features.",
+    "Trusted: mc/ref/pen.py closed-form one-sided derivatives (self-tested). generalized_support is not judged (it is not "
+    "part of the statement). No claim outside the alphabets.",
+    "DESIGN.md §4 C08")
